@@ -69,17 +69,20 @@ impl Palette {
                     }
                 } else if index >= nb_colors {
                     let index = index - nb_colors;
+                    // 64-bit intermediates: the products exceed `i32` for bit depths of 30 and
+                    // more, while the resulting sample fits.
+                    let max_value = (1i64 << bit_depth) - 1;
                     if index < 64 {
                         for (c, sample) in channels_it.enumerate() {
-                            *sample = S::from_i32(
-                                ((index >> (2 * c)) % 4) * ((1i32 << bit_depth) - 1) / 4
-                                    + (1i32 << bit_depth.saturating_sub(3)),
-                            );
+                            let value = ((index >> (2 * c)) % 4) as i64 * max_value / 4
+                                + (1i64 << bit_depth.saturating_sub(3));
+                            *sample = S::from_i32(value as i32);
                         }
                     } else {
                         let mut index = index - 64;
                         for sample in channels_it {
-                            *sample = S::from_i32((index % 5) * ((1i32 << bit_depth) - 1) / 4);
+                            let value = (index % 5) as i64 * max_value / 4;
+                            *sample = S::from_i32(value as i32);
                             index /= 5;
                         }
                     }
